@@ -80,7 +80,7 @@ func runCorpus(args []string) {
 			var probs []problem
 			nodes := 0
 			if which == "c18" {
-				probs, _ = checkTraversal(f)
+				probs, _ = checkTraversal(f, true)
 				nodes = len(realPreorder(f))
 			} else {
 				p := &parsedCase{root: f, file: f, src: string(src)}
